@@ -123,3 +123,65 @@ package wire
 //@   modifies dst[rdlenOff], dst[rdlenOff+1]
 //@   ensures result == dst
 //@   ensures rdlenOff >= 0 && rdlenOff + 2 <= len(dst) ==> be16(result, rdlenOff) == uint16(len(dst) - rdlenOff - 2)
+//@
+//@ # ---- C15: the pooled packer.
+//@ # header flags word exactly as the library builds it (RFC 1035 4.1.1): opcode<<11 | rcode&0xF | one bit per flag
+//@ spec flagBits(msg *dns.Msg, k int) uint16 := ite(k > 0 && msg.Response, uint16(32768), uint16(0)) | ite(k > 1 && msg.Authoritative, uint16(1024), uint16(0)) | ite(k > 2 && msg.Truncated, uint16(512), uint16(0)) | ite(k > 3 && msg.RecursionDesired, uint16(256), uint16(0)) | ite(k > 4 && msg.RecursionAvailable, uint16(128), uint16(0)) | ite(k > 5 && msg.Zero, uint16(64), uint16(0)) | ite(k > 6 && msg.AuthenticatedData, uint16(32), uint16(0)) | ite(k > 7 && msg.CheckingDisabled, uint16(16), uint16(0))
+//@ func msgBits
+//@   arith bv
+//@   requires msg != nil
+//@   modifies nothing
+//@   loop 1 invariant 0 <= rangeidx && rangeidx <= 8 && bits == uint16(msg.Opcode) << 11 | uint16(msg.Rcode & 15) | flagBits(msg, rangeidx)
+//@   ensures result == uint16(msg.Opcode) << 11 | uint16(msg.Rcode & 15) | flagBits(msg, 8)
+//@
+//@ # the OPT the library's IsEdns0 selects: the LAST OPT-typed record of the additional section; unsafe shapes (a nil
+//@ # record, or an OPT-typed record that is not a *dns.OPT, met before that) are reported, never guessed
+//@ func selectOPT
+//@   requires msg != nil && forall k int :: {msg.Extra[k]} 0 <= k && k < len(msg.Extra) && dyntype(msg.Extra[k], *dns.OPT) ==> as(msg.Extra[k], *dns.OPT) != nil
+//@   modifies nothing
+//@   loop 1 invariant -1 <= i && i < len(msg.Extra) && forall k int :: {msg.Extra[k]} i < k && k < len(msg.Extra) ==> msg.Extra[k] != nil && hdrOf(msg.Extra[k]).Rrtype != dns.TypeOPT
+//@   ensures safe && opt != nil ==> exists k int :: {msg.Extra[k]} 0 <= k && k < len(msg.Extra) && dyntype(msg.Extra[k], *dns.OPT) && as(msg.Extra[k], *dns.OPT) == opt && hdrOf(msg.Extra[k]).Rrtype == dns.TypeOPT && forall j int :: {msg.Extra[j]} k < j && j < len(msg.Extra) ==> msg.Extra[j] != nil && hdrOf(msg.Extra[j]).Rrtype != dns.TypeOPT
+//@   ensures safe && opt == nil ==> forall k int :: {msg.Extra[k]} 0 <= k && k < len(msg.Extra) ==> msg.Extra[k] != nil && hdrOf(msg.Extra[k]).Rrtype != dns.TypeOPT
+//@   ensures !safe ==> opt == nil
+//@
+//@ # the pooled state goes back to the pool holding nothing of the message
+//@ func (*packState).release
+//@   requires state != nil
+//@   nosafety assertion
+//@   assert at call (*sync.Pool).Put#1: state.rr.RR == nil && state.rr.hdr == dns.RR_Header{} && state.opt.Hdr == dns.RR_Header{} && len(state.opt.Option) == 0 && (state.compression != nil ==> len(state.compression) == 0)
+//@
+//@ # TryPack (abstracting tier): it declines before producing any output unless rcode is in 0..0xFFF, every record is
+//@ # admissible, the OPT selection is safe and an extended rcode has an OPT to live in; the consumer is called at most
+//@ # once, only after packInto succeeded, with exactly the packed prefix and capacity pinned to its length; a state taken
+//@ # from the pool is released exactly once on every path
+//@ func TryPack
+//@   abstract
+//@   nosafety all pre
+//@   assert at call (*internal/wire.packState).packInto#1: old(msg.Rcode) >= 0 && old(msg.Rcode) <= 4095
+//@   assert at call (*internal/wire.packState).packInto#1: lastret("internal/wire.selectOPT", 1) && arg2 == lastret("internal/wire.selectOPT") && arg1 == msg
+//@   assert at call (*internal/wire.packState).packInto#1: arg2 == nil ==> old(msg.Rcode) <= 15
+//@   assert at call param internal/wire.TryPack.consume#1: lastret("(*internal/wire.packState).packInto", 1) && len(arg0) == lastret("(*internal/wire.packState).packInto") && cap(arg0) == len(arg0) && calls("param internal/wire.TryPack.consume") == 0
+//@   assert at return: !result0 ==> calls("param internal/wire.TryPack.consume") == 0
+//@   assert at return: calls("(*sync.Pool).Get") == calls("(*internal/wire.packState).release") && calls("(*sync.Pool).Get") <= 1 && calls("(*sync.Pool).Put") == 0
+//@
+//@ # admission reads only (reflection on dynamic types is trusted to have no effect on memory)
+//@ func libraryOwned
+//@   trusted
+//@   modifies nothing
+//@   ensures result ==> v != nil && (dyntype(v, *dns.OPT) ==> as(v, *dns.OPT) != nil) && (dyntype(v, *dns.SVCB) ==> as(v, *dns.SVCB) != nil) && (dyntype(v, *dns.HTTPS) ==> as(v, *dns.HTTPS) != nil)
+//@ func admissibleSVCBValues
+//@   modifies nothing
+//@ func admissibleRR
+//@   modifies nothing
+//@
+//@ # the library fallback packs the caller's own message object only where the library's Pack writes nothing into it
+//@ # (invalid rcode: error before any write; inadmissible record: library semantics wholesale; no selectable OPT);
+//@ # otherwise it packs a shallow clone whose selected OPT is a private copy
+//@ func libraryPackImmutable
+//@   abstract
+//@   nosafety all pre
+//@   assert at call (*github.com/miekg/dns.Msg).Pack#1: arg0 == msg && (old(msg.Rcode) < 0 || old(msg.Rcode) > 4095)
+//@   assert at call (*github.com/miekg/dns.Msg).Pack#2: arg0 == msg && !lastret("internal/wire.admissibleRR")
+//@   assert at call (*github.com/miekg/dns.Msg).Pack#3: arg0 == msg && (!lastret("internal/wire.selectOPT", 1) || lastret("internal/wire.selectOPT") == nil)
+//@   assert at call (*github.com/miekg/dns.Msg).Pack#4: arg0 != msg && lastret("internal/wire.selectOPT", 1) && lastret("internal/wire.selectOPT") != nil
+//@   assert at return: calls("(*github.com/miekg/dns.Msg).Pack") == 1
